@@ -37,7 +37,7 @@ pub fn is_name_start_char(value: char) -> bool {
             0x00037F..=0x001FFF |
             0x00200C..=0x00200D |
             0x002070..=0x00218F |
-            0x002C00..=0x002EFE |
+            0x002C00..=0x002FEF |
             0x003001..=0x00D7FF |
             0x00F900..=0x00FDCF |
             0x00FDF0..=0x00FFFD |
